@@ -246,6 +246,10 @@ pub fn check(case: &Case, obs: &mut Obs) -> Verdict {
 }
 
 fn extra(cfg: &RunCfg, w: &mut Worker) {
+    corpus_subrun(cfg, w, |i, paras, width, v| {
+        let text = if v == 3 && i + 1 < paras.len() { format!("{}\n{}", paras[i], paras[i + 1]) } else { paras[i].clone() };
+        grid_variant(v, i, width, true).map(|o| Case::new("text").text(text).opt(o))
+    });
     // exhaustive small fragments (as C06) for the greedy check
     let max = if cfg.thorough { 5 } else { 4 };
     let mut choices = Vec::new();
